@@ -51,6 +51,15 @@ theorem c09_shift_carries_substep :
         some (some (.loop 0), [[1, 1], [0, 1], [0, 0]], 1) := by
   decide
 
+/-- C03-same-connection-events-collapse: two event values of one connection (same input key), produced for times 3 and 4, are
+both buffered when the destination steps at time 4: `TimedInputBuffer.get_input` hands over one value per key - the later one -
+and empties the buffer, so the value 11 is never delivered ("each produced value exactly once" fails by design of the step
+request: one slot per (input attribute, source entity)) -/
+theorem c03_same_connection_events_collapse :
+    let k : InKey := { eid := 0, attr := 0, ssid := 0, seid := 0 }
+    let buf : List BufEntry := [{ time := 3, ctr := 0, key := k, val := some 11 }, { time := 4, ctr := 1, key := k, val := some 27 }]
+    bufferTake buf 4 [] = ([(k, some 27)], []) := by decide
+
 end Mosaik.Findings
 
 namespace Mosaik.Findings
